@@ -66,10 +66,10 @@ def concretize(case, variant):
         return literal
 
     value = _chars(case["valChars"])
-    pyval = int(value) if case["val"] == "num" else value
+    pyval = int(value) if case["val"] in ("num", "zero") else False if case["val"] == "false" else value
     kw = []
     if case["bind"] in ("kw", "both"):
-        kw.append("y: " + arg("yv", value if case["val"] == "num" else _lit(value, q), pyval))
+        kw.append("y: " + arg("yv", value if case["val"] in ("num", "zero", "false") else _lit(value, q), pyval))
     if case["bind"] == "data":
         data["y"] = pyval
     elif case["bind"] == "both":
